@@ -367,6 +367,15 @@ fn run_fn(name: &str, args: &[&str]) -> String {
             Err(e) => format!("err other {}", e),
         },
         "is_valid_vp9_frame" => s01(is_valid_vp9_frame(&d())).into(),
+        // the crate's assertion log (thread-local set of invariant messages): the three non-asserting entry
+        // points; `contract_test` with an empty requirement list must not panic whatever was logged before
+        "invariant_log" => {
+            let n = muxide::invariant_ppt::get_logged_invariants().len();
+            muxide::invariant_ppt::contract_test("verif", &[]);
+            muxide::invariant_ppt::clear_invariant_log();
+            let m = muxide::invariant_ppt::get_logged_invariants().len();
+            format!("ok {}", if m == 0 && n < 1_000_000 { 0 } else { 1 })
+        }
         "parse_video_codec" => match String::from_utf8(d()) {
             Ok(t) => opt(t.parse::<VideoCodec>().ok(), |c| vcodec_s(c).to_string()),
             Err(_) => "not-utf8".into(),
